@@ -246,6 +246,7 @@ PY_PRED = {'even': lambda x: x % 2 == 0, 'odd': lambda x: x % 2 == 1, 'pos': lam
            'lt3': lambda x: x < 3, 'true': lambda x: True, 'false': lambda x: False}
 PY_FN2 = {'add': lambda x, y: x + y, 'mul': lambda x, y: x * y, 'sub': lambda x, y: x - y, 'max2': max, 'min2': min,
           'snd': lambda x, y: y}
+PY_FN3 = {'add3': lambda x, y, z: x + y + z, 'pick3': lambda x, y, z: 100 * x + 10 * y + z}
 PY_CMP = {'lt': lambda a, b: a < b, 'gt': lambda a, b: a > b, 'le': lambda a, b: a <= b, 'ge': lambda a, b: a >= b,
           'mod4lt': lambda a, b: a % 4 < b % 4, 'absgt': lambda a, b: abs(a) > abs(b), 'div3lt': lambda a, b: a // 3 < b // 3,
           'true': lambda a, b: True, 'false': lambda a, b: False, 'ne': lambda a, b: a != b,
@@ -685,7 +686,26 @@ def _oracle(f, args):
         if len(args) == 3 and args[1][0] in ('(', '[') and args[2][0] in ('(', '['):
             g = fn_of(args[0], PY_FN2)
             return A([I(x) for x in map(g, ints_of(args[1][1]), ints_of(args[2][1]))]), same
+        if len(args) == 4 and all(a[0] in ('(', '[') for a in args[1:]):
+            g = fn_of(args[0], PY_FN3)
+            return A([I(x) for x in map(g, ints_of(args[1][1]), ints_of(args[2][1]), ints_of(args[3][1]))]), same
         raise NoOpinion()
+    if f == 'find':
+        if len(args) != 2 or args[1][0] not in ('(', '['): raise NoOpinion()
+        p = fn_of(args[0], PY_PRED)
+        for x in ints_of(args[1][1]):
+            if p(x): return I(x), same
+        return NIL, same
+    if f == 'index-of':
+        if len(args) != 2 or args[1][0] not in ('(', '[') or args[0][0] != 'i': raise NoOpinion()
+        for i, x in enumerate(ints_of(args[1][1])):
+            if x == args[0][1]: return I(i), same
+        return NIL, same
+    if f == 'reduce2':
+        if len(args) != 2 or args[1][0] not in ('(', '['): raise NoOpinion()
+        g = fn_of(args[0], PY_FN2)
+        xs = ints_of(args[1][1])
+        return (I(functools.reduce(g, xs)) if xs else NIL), same
     if f == 'reduce':
         if len(args) != 3 or args[2][0] not in ('(', '[') or args[1][0] != 'i': raise NoOpinion()
         g = fn_of(args[0], PY_FN2)
